@@ -1,3 +1,59 @@
+"""compiled-runtime half of C13: the same instance under different record settings gives the same execution (host log,
+final graph state); every recorded row equals the host log row; rows never executed stay -1."""
+import random, itertools
+from . import compiledlib as cl, c07, asynclib as al
+
+FLAGS = ("params", "rng", "inputs", "state", "output")
+
+
 def run(chk):
-    """compiled-runtime half of C13 (filled in with the M3 harness)"""
-    chk.notes.append("compiled-runtime half pending in this build")
+    quick = chk.tier == "quick"
+    base = c07.make_jobs(chk, 2 if quick else 8)
+    combos = [dict(zip(FLAGS, b)) for b in itertools.product([False, True], repeat=5)]
+    pick = [dict(zip(FLAGS, [True] * 5)), dict(zip(FLAGS, [False] * 5))] + (chk.rnd.sample(combos, 2) if quick else combos)
+    jobs = []
+    for j in base:
+        for i, rec in enumerate(pick):
+            jj = dict(j); jj["id"] = f"c13c:{j['id']}:{i}"; jj["record"] = rec; jj["base"] = j["id"]; jobs.append(jj)
+    res = cl.run_jobs(jobs, nproc=6 if quick else 12)
+    by = {}
+    for j in jobs: by.setdefault(j["base"], []).append(j)
+    for b, js in by.items():
+        ref = None
+        cfg = js[0]["cfg"]; names = sorted(cfg["nodes"])
+        case = dict(cfg=cfg, source=js[0]["source"], mode=js[0]["mode"], prune=js[0]["prune"], seed=js[0].get("seed"), tmax=js[0].get("tmax"), steps=js[0].get("steps"), runtime="compiled")
+        ok = [j for j in js if "error" not in res.get(j["id"], dict(error=1)) and "graph_error" not in res[j["id"]]]
+        if not ok: chk.feat("compiled:rejected-or-error"); continue
+        chk.case((repr(cfg), js[0]["mode"], js[0]["prune"], "compiled-record"), ["compiled", f"settings={len(ok)}"] + al.features(cfg), None)
+        for j in ok:
+            r = res[j["id"]]
+            for e, ep in enumerate(r["episodes"]):
+                chk.traces_impl += 1
+                if "record_error" in ep:
+                    chk.violation("init_record-raises", f"Graph.init_record({j['record']}) raised {ep['record_error']}", case); continue
+                ex = (sorted(tuple(c) for c in ep["calls"]), ep["final"])
+                if ref is None or e not in ref: ref = ref or {}; ref[e] = (j["record"], ex)
+                elif ref[e][1] != ex:
+                    chk.violation("recording-changes-execution", f"compiled episode {e}: execution under record setting {j['record']} differs from {ref[e][0]}", case)
+                host = {(c[0], c[1]): c for c in ep["calls"]}
+                for n in names:
+                    c = ep.get("rows", {}).get(n)
+                    if c is None: continue
+                    for k in range(len(c["seq"])):
+                        sq = c["seq"][k]
+                        if sq < 0:
+                            if any(c[f][k] != -64 for f in ("start", "end")):   # -1.0 s in ticks
+                                chk.violation("unexecuted-row-not-minus-one", f"{n} row {k}: seq -1 but times {c['start'][k]},{c['end'][k]}", case)
+                            continue
+                        if sq != k: chk.violation("record-row-misplaced", f"{n}: row {k} holds seq {sq}", case); break
+                        h = host.get((n, sq))
+                        if h is None: chk.violation("row-without-execution", f"{n}[{sq}] recorded but never executed", case); break
+                        got = dict(ts=c["start"][k]); want = dict(ts=h[2])
+                        if "state" in c: got["state"] = c["state"][k]; want["state"] = h[3]
+                        if "out" in c: got["out"] = c["out"][k]; want["out"] = h[4]
+                        if "rng" in c: got["rng"] = c["rng"][k]; want["rng"] = [h[5], h[6]]
+                        if got != want:
+                            chk.violation("record-row-unfaithful", f"compiled {n}[{sq}] under {j['record']}: recorded {got}, the step used/produced {want}", case); break
+                    for fld, key in (("state", "state"), ("output", "out"), ("rng", "rng"), ("inputs", "wins")):
+                        if not j["record"].get(fld) and key in c:
+                            chk.violation("record-setting-ignored", f"compiled {n}: {fld} recorded although switched off", case)
